@@ -88,7 +88,11 @@ Definition item_wf (it : fixitem) : Prop :=
 Definition data_justified (it : fixitem) (rs : list report) (e : effect) : Prop :=
   match e with
   | WData d q k => fi_selected it = true /\ d = fi_disk it /\
-                   ((q = fi_path it /\ reported rs d q) \/ (In q (fi_anc it) /\ k = KMkdir))
+                   ((q = fi_path it /\ reported rs d q)
+                    \/ (In q (fi_anc it) /\ k = KMkdir)
+                    (* the path did not exist before the run: its creation, the removal of what this run created and did
+                       not finish, the rename-back of a .unrecoverable copy *)
+                    \/ (q = fi_path it /\ fi_missing it = true /\ (k = KCreate \/ k = KUnlink \/ k = KRename)))
   | _ => False
   end.
 
@@ -102,29 +106,74 @@ Ltac in_split :=
          | H : In _ (map _ _) |- _ => apply in_map_iff in H; destruct H as [? [? H]]
          end.
 
-Lemma item_effects_justified : forall it e, item_wf it -> In e (fst (item_effects it)) ->
-  data_justified it (snd (item_effects it)) e.
+Ltac close_dj SEL :=
+  unfold data_justified, reported; cbn [fst snd];
+  repeat match goal with |- context [if ?c then _ else _] => destruct c; cbn [fst snd] end;
+  (split; [exact SEL | split; [reflexivity |]]);
+  first [ solve [right; left; split; [assumption | reflexivity]]
+        | solve [right; right; split; [reflexivity | split; [first [assumption | reflexivity] | tauto]]]
+        | solve [left; split; [reflexivity |]; simpl; rewrite ?in_app_iff; simpl;
+                 repeat match goal with |- context [if ?c then _ else _] => destruct c; simpl end; tauto] ].
+
+Lemma file_effects_justified : forall so it e, item_wf it -> fi_kind it = OFile -> fi_selected it = true ->
+  In e (fst (file_effects so it)) -> data_justified it (snd (file_effects so it)) e.
 Proof.
-  intros it e WF. unfold item_effects.
-  destruct (fi_selected it) eqn:SEL; simpl negb; cbv iota; [| simpl; tauto].
-  unfold item_wf in WF.
-  destruct (fi_kind it) eqn:K; destruct (fi_state it) eqn:S; destruct (fi_missing it) eqn:M;
-    try (exfalso; apply (WF eq_refl eq_refl); reflexivity);
-    cbv zeta; simpl fst; simpl snd; intros H; in_split; subst; unfold data_justified, reported;
-    (split; [exact SEL | split; [reflexivity |]]);
-    try (right; split; [assumption | reflexivity]);
-    left; (split; [reflexivity |]);
-    simpl; rewrite ?in_app_iff; simpl;
-    repeat match goal with |- context [if ?c then _ else _] => destruct c; simpl end; tauto.
+  intros so it e WF K SEL. unfold item_wf in WF. specialize (WF K). unfold file_effects.
+  destruct so; destruct (fi_missing it) eqn:M; destruct (fi_unsynced it); destruct (fi_finished it);
+    destruct (fi_state it) eqn:S; try (exfalso; apply (WF eq_refl); reflexivity);
+    cbv beta iota zeta; cbn [fst snd negb andb orb]; cbv beta iota zeta; intros H; in_split; subst; close_dj SEL.
 Qed.
 
-Lemma item_effects_data_only : forall it e, In e (fst (item_effects it)) -> exists d q k, e = WData d q k.
+Lemma item_effects_justified : forall so it e, item_wf it -> In e (fst (item_effects so it)) ->
+  data_justified it (snd (item_effects so it)) e.
 Proof.
-  intros it e. unfold item_effects.
+  intros so it e WF. unfold item_effects.
+  destruct (fi_selected it) eqn:SEL; simpl negb; cbv iota; [| simpl; tauto].
+  destruct (fi_kind it) eqn:K; [exact (file_effects_justified so it e WF K SEL) | | | |];
+    destruct (fi_state it) eqn:S; destruct (fi_missing it) eqn:M;
+    cbv zeta; simpl fst; simpl snd; intros H; in_split; subst; close_dj SEL.
+Qed.
+
+Lemma file_effects_data_only : forall so it e, In e (fst (file_effects so it)) -> exists d q k, e = WData d q k.
+Proof.
+  intros so it e. unfold file_effects.
+  destruct so; destruct (fi_missing it); destruct (fi_unsynced it); destruct (fi_finished it); destruct (fi_state it);
+    cbv beta iota zeta; cbn [fst snd negb andb orb]; cbv beta iota zeta; intros H; in_split; subst; eauto.
+Qed.
+
+Lemma item_effects_data_only : forall so it e, In e (fst (item_effects so it)) -> exists d q k, e = WData d q k.
+Proof.
+  intros so it e. unfold item_effects.
   destruct (fi_selected it); simpl negb; cbv iota; [| simpl; tauto].
-  destruct (fi_kind it); destruct (fi_state it); destruct (fi_missing it);
+  destruct (fi_kind it); [apply file_effects_data_only | | | |]; destruct (fi_state it); destruct (fi_missing it);
     cbv zeta; simpl fst; intros H; in_split; subst; eauto.
 Qed.
+
+(* fix removes only files it created in this run and did not finish (or, under -e / -b, found unsynced) *)
+Lemma file_unlink_only_created : forall so it d q, In (WData d q KUnlink) (fst (file_effects so it)) ->
+  q = fi_path it /\ fi_missing it = true /\ fi_unrec_copy it = false
+  /\ In (WData d q KCreate) (fst (file_effects so it))
+  /\ (fi_finished it = false \/ so = true).
+Proof.
+  intros so it d q. unfold file_effects.
+  destruct so; destruct (fi_missing it); destruct (fi_unsynced it); destruct (fi_finished it); destruct (fi_state it);
+    destruct (fi_unrec_copy it); destruct (fi_larger it); destruct (fi_partial it);
+    cbv beta iota zeta; cbn [fst snd negb andb orb]; cbv beta iota zeta; intros H; in_split; try discriminate;
+    match goal with E : WData _ _ _ = WData _ _ _ |- _ => inversion E; subst end;
+    (split; [reflexivity | split; [reflexivity | split; [reflexivity | split; [| tauto]]]]);
+    rewrite ?in_app_iff; simpl; tauto.
+Qed.
+
+(* with syncedonly (-e / -b) a file found unsynced is left alone: no rename, no write, no truncation, no time change, no report;
+   if it exists nothing at all happens, if it is missing the empty file fix creates is removed again *)
+Lemma syncedonly_unsynced_existing_untouched : forall it, fi_missing it = false -> fi_unsynced it = true ->
+  file_effects true it = ([], []).
+Proof. intros it M U. unfold file_effects. rewrite M, U. reflexivity. Qed.
+
+Lemma syncedonly_missing_transient : forall it, fi_missing it = true -> fi_unrec_copy it = false ->
+  file_effects true it =
+  (map (fun a => WData (fi_disk it) a KMkdir) (fi_anc it) ++ [WData (fi_disk it) (fi_path it) KCreate] ++ [WData (fi_disk it) (fi_path it) KUnlink], []).
+Proof. intros it M U. unfold file_effects. rewrite M, U. simpl. rewrite <- app_assoc. reflexivity. Qed.
 
 Lemma reported_app_l : forall a b d q, reported a d q -> reported (a ++ b) d q.
 Proof. unfold reported. intros. rewrite !in_app_iff. tauto. Qed.
@@ -133,28 +182,28 @@ Proof. unfold reported. intros. rewrite !in_app_iff. tauto. Qed.
 
 Lemma data_justified_app_l : forall it a b e, data_justified it a e -> data_justified it (a ++ b) e.
 Proof.
-  intros it a b [] H; simpl in *; try tauto. destruct H as [? [? [[? ?] | ?]]]; (split; [assumption | split; [assumption |]]);
-    [left; split; [assumption | apply reported_app_l; assumption] | right; assumption].
+  intros it a b [] H; simpl in *; try tauto. destruct H as [? [? [[? ?] | [? | ?]]]]; (split; [assumption | split; [assumption |]]);
+    [left; split; [assumption | apply reported_app_l; assumption] | right; left; assumption | right; right; assumption].
 Qed.
 Lemma data_justified_app_r : forall it a b e, data_justified it b e -> data_justified it (a ++ b) e.
 Proof.
-  intros it a b [] H; simpl in *; try tauto. destruct H as [? [? [[? ?] | ?]]]; (split; [assumption | split; [assumption |]]);
-    [left; split; [assumption | apply reported_app_r; assumption] | right; assumption].
+  intros it a b [] H; simpl in *; try tauto. destruct H as [? [? [[? ?] | [? | ?]]]]; (split; [assumption | split; [assumption |]]);
+    [left; split; [assumption | apply reported_app_r; assumption] | right; left; assumption | right; right; assumption].
 Qed.
 
-Lemma items_effects_justified : forall l e, Forall item_wf l -> In e (fst (items_effects l)) ->
-  exists it, In it l /\ data_justified it (snd (items_effects l)) e.
+Lemma items_effects_justified : forall so l e, Forall item_wf l -> In e (fst (items_effects so l)) ->
+  exists it, In it l /\ data_justified it (snd (items_effects so l)) e.
 Proof.
-  induction l as [| it l IH]; simpl; intros e WF H; [tauto |].
+  intros so. induction l as [| it l IH]; simpl; intros e WF H; [tauto |].
   inversion WF; subst. apply in_app_or in H. destruct H as [H | H].
   - exists it. split; [auto |]. apply data_justified_app_l. apply item_effects_justified; assumption.
   - destruct (IH e H3 H) as [it' [I J]]. exists it'. split; [auto |]. apply data_justified_app_r. exact J.
 Qed.
 
-Lemma items_effects_data_only : forall l e, In e (fst (items_effects l)) -> exists d q k, e = WData d q k.
+Lemma items_effects_data_only : forall so l e, In e (fst (items_effects so l)) -> exists d q k, e = WData d q k.
 Proof.
-  induction l as [| it l IH]; simpl; intros e H; [tauto |].
-  apply in_app_or in H. destruct H as [H | H]; [exact (item_effects_data_only _ _ H) | exact (IH _ H)].
+  intros so. induction l as [| it l IH]; simpl; intros e H; [tauto |].
+  apply in_app_or in H. destruct H as [H | H]; [exact (item_effects_data_only _ _ _ H) | exact (IH _ H)].
 Qed.
 
 Lemma fix_parity_effects : forall o p e, In e (fst (fix_parity o p)) ->
@@ -187,7 +236,7 @@ Proof.
   - apply in_resize in H. destruct H as [l [E [Hl X]]]. left. exists (N.of_nat l).
     rewrite Nnat.Nat2N.id. split; [exact E | split; [exact (in_levels _ _ Hl) | exact X]].
   - destruct (N.ltb (o_blockstart o) (p_blockmax p)); simpl in H; [| tauto].
-    destruct (items_effects_justified _ _ WF H) as [it [I J]].
+    destruct (items_effects_justified _ _ _ WF H) as [it [I J]].
     right. left. exists it. split; [exact I |]. apply data_justified_app_l. exact J.
   - destruct (N.ltb (o_blockstart o) (p_blockmax p)); simpl in H; [| tauto].
     destruct (fix_parity_effects _ _ _ H) as [l [s [A [B [C _]]]]].
@@ -340,7 +389,7 @@ Proof.
   cbv zeta. simpl fst. rewrite !in_app_iff. intros [B | [B | B]].
   - apply in_resize in B. destruct B as [l [E _]]. discriminate.
   - revert B. destruct (N.ltb (o_blockstart o) (p_blockmax p)); simpl; [| tauto]. intros B.
-    destruct (items_effects_data_only _ _ B) as [d [q [k E]]]. discriminate.
+    destruct (items_effects_data_only _ _ _ B) as [d [q [k E]]]. discriminate.
   - revert B. destruct (N.ltb (o_blockstart o) (p_blockmax p)); simpl; [| tauto]. intros B.
     destruct (fix_parity_effects _ _ _ B) as [l [s [E _]]]. discriminate.
 Qed.
@@ -599,9 +648,9 @@ Proof.
   split; [intros [] H; vm_compute in *; congruence |]. vm_compute. auto.
 Qed.
 
-Definition it_missing : fixitem := mkFI 1 7 OFile true true false false FRecoverable false [5].
-Definition it_unsel : fixitem := mkFI 0 3 OFile false true false false FRecoverable false [].
-Definition it_bad : fixitem := mkFI 0 4 OFile true false false true FUnrecoverable true [].
+Definition it_missing : fixitem := mkFI 1 7 OFile true true false false FRecoverable false false true [5].
+Definition it_unsel : fixitem := mkFI 0 3 OFile false true false false FRecoverable false false true [].
+Definition it_bad : fixitem := mkFI 0 4 OFile true false false true FUnrecoverable true false true [].
 Definition o_fix : opts := mkOpts true false false false false false false false false false false false 0 0 true [true; false] false false false.
 Definition p_fix : pre :=
   mkPre true true 2 2 true true false false false false 0 [ds_ok; ds_ok] false 9 9 [true; true] [true; true] [9; 9] [9; 9] [false; false] [false; false] false [] false false 0 false false false
